@@ -7,15 +7,16 @@ Wire form of the C04 type language (`SaModel.Roundtrip.Ty`), as written by hand 
 harness/src/zoo.rs (`trait Describe`):
 
   {"t": "bool" | "i8" … "u64" | "f32" | "f64" | "char" | "str" | "bytes" | "unit"}
+  {"t": "str_ref" | "cow_str" | "bytes_ref" | "bytes_seq"}     the borrowed leaves `Prim.strRef` … `Prim.bytesSeq`
   {"t": "option" | "vec", "a": T}   {"t": "tuple", "a": [T…]}   {"t": "map", "k": T, "v": T}
   {"t": "struct", "n": name, "f": [[field, skipNone, T]…]}   {"t": "tuple_struct", "n": name, "a": [T…]}
   {"t": "newtype", "n": name, "a": T}   {"t": "unit_struct", "n": name}
   {"t": "enum", "n": name, "v": [{"n": variant, "k": "unit" | "newtype" | "tuple" | "struct", "a": …}…]}
 
-A node carrying `"target"` is a position whose Deserialize side is a BORROWED target (`&'de str`, `&'de [u8]`): the
-model's `toTarget` does not describe it (outside the grammar of the C04 theorems).  A node carrying `"de"` has a Deserialize
-side that is ANOTHER type than its Serialize side (`&'de [u8]` without serde_bytes: a sequence of u8 out, bytes in; `from_type`
-follows the Deserialize side): `rtyOfJson false` reads the Serialize side, `rtyOfJson true` the Deserialize side.
+The borrowed leaves are part of the type language (`&'de str`, `#[serde(borrow)] Cow<str>`, `&'de [u8]` with and without
+serde_bytes — the latter ASYMMETRIC: `ser` issues a sequence of u8, `toTraceTy` / `toTarget` ask for bytes).  Legacy: a node
+carrying `"target"` (a target override) or `"de"` (another Deserialize side; `rtyOfJson true` reads it) is a position the model
+does NOT describe — no zoo type uses them any more, `hasTargetOverride` still tags such a case `outside-fragE`.
 
 `valOfSVal t s`: the typed value whose serialization a recorded call stream is — the inverse of `Roundtrip.ser t`, type
 directed (a field left out by `skip_serializing_if` is `None`).  Lenient: the caller checks `ser t v = s` and `wt t v`.
@@ -27,6 +28,7 @@ open Lean SaModel SaModel.Roundtrip
 def rprimOfStr : String → Option Prim
   | "bool" => some .bool | "f32" => some .f32 | "f64" => some .f64 | "char" => some .char | "str" => some .str
   | "bytes" => some .bytes
+  | "str_ref" => some .strRef | "cow_str" => some .cowStr | "bytes_ref" => some .bytesRef | "bytes_seq" => some .bytesSeq
   | s => (intTyOfStr s).map .int
 
 def tysOfList : List Ty → Tys
@@ -98,6 +100,12 @@ partial def hasTargetOverride (j : Json) : Bool :=
 
 /-! ### the typed value behind a recorded call stream -/
 
+/-- the bytes behind a sequence of `serialize_u8` calls (`&[u8]` without serde_bytes) -/
+def bytesOfU8Seq : List SVal → Option (List UInt8)
+  | [] => some []
+  | .int .u8 v :: r => if 0 ≤ v ∧ v ≤ 255 then (bytesOfU8Seq r).map (UInt8.ofNat v.toNat :: ·) else none
+  | _ => none
+
 mutual
 partial def valOfSVal : Ty → SVal → Option Val
   | .prim .bool, .bool b => some (.bool b)
@@ -107,6 +115,10 @@ partial def valOfSVal : Ty → SVal → Option Val
   | .prim .char, .char c => some (.char c)
   | .prim .str, .str s => some (.str s)
   | .prim .bytes, .bytes b => some (.bytes b)
+  | .prim .strRef, .str s => some (.str s)
+  | .prim .cowStr, .str s => some (.str s)
+  | .prim .bytesRef, .bytes b => some (.bytes b)
+  | .prim .bytesSeq, .seq xs => (bytesOfU8Seq xs.toList).map .bytes
   | .unit, .unit => some .unit
   | .unitStruct _, .unitStruct _ => some .unit
   | .option _, .none => some .none
